@@ -10,7 +10,11 @@ If(c, name) == IF c THEN {name} ELSE {}
 Clauses(rec) ==
   LET i == rec.in
       r == rec.obs
-  IN   If(rec.hung, "C10_does_not_hang_beyond_timeouts")
+  IN   IF rec.stalled
+       THEN If(rec.hung \/ rec.elapsedMs > rec.budgetMs + 1000, "C10_does_not_hang_beyond_timeouts")
+         \cup If(r.status = "ok", "C10_reply_is_ok_notfound_or_reset_with_true_store_data")
+       ELSE
+       If(rec.hung, "C10_does_not_hang_beyond_timeouts")
   \cup If(r.status \notin {"ok", "notfound", "reset", "hung"}, "C10_reply_is_ok_notfound_or_reset_with_true_store_data")
   \cup If(r.status # "ok" /\ Len(r.heights) # 0, "C10_reply_is_ok_notfound_or_reset_with_true_store_data")
   \cup If(i.kind = "range" /\ i.origin # 0 /\ r.status = "ok" /\ ~ExactPrefix(i, r.heights), "C10_ok_is_exactly_origin_origin_plus_1_in_order")
